@@ -245,6 +245,16 @@ func execUpload(vec J, out *Writer) {
 	}
 	defer os.RemoveAll(root)
 	src, dst, outside := filepath.Join(root, "src"), filepath.Join(root, "dst"), filepath.Join(root, "outside")
+	if fault["kind"] == "xdev" {
+		// not a failure injected into the library: the destination lies on another filesystem (rename(2) answers EXDEV)
+		other := otherFilesystemDir(root)
+		if other == "" {
+			out.Put(J{"ev": "up", "in": vec, "skipped": true})
+			return
+		}
+		defer os.RemoveAll(other)
+		dst = filepath.Join(other, "dst")
+	}
 	for _, d := range []string{src, dst, outside, filepath.Join(src, "sub")} {
 		os.MkdirAll(d, 0755)
 	}
@@ -433,4 +443,23 @@ func execUpload(vec J, out *Writer) {
 	out.Put(J{"ev": "up", "in": vec, "ctl": ctlName, "bases": bases, "events": events, "err": operr != nil, "panic": panicked,
 		"handle": hd, "hook_fired": hookFired, "before": before,
 		"after": J{"src": snapshot(src, originals), "dst": snapshot(dst, originals), "out": snapshot(outside, originals), "sub": snapshot(filepath.Join(src, "sub"), originals)}})
+}
+
+// otherFilesystemDir: a fresh directory on a filesystem other than the one `here` is on ("" if there is none).
+func otherFilesystemDir(here string) string {
+	var a syscall.Stat_t
+	if syscall.Stat(here, &a) != nil {
+		return ""
+	}
+	for _, cand := range []string{"/dev/shm", "/run/shm", "/run", "/var/tmp", "/tmp"} {
+		var b syscall.Stat_t
+		if syscall.Stat(cand, &b) != nil || b.Dev == a.Dev {
+			continue
+		}
+		d, err := os.MkdirTemp(cand, "verif-xdev-")
+		if err == nil {
+			return d
+		}
+	}
+	return ""
 }
